@@ -90,6 +90,9 @@ pub struct Cfg {
     pub offer_when_queued_le: usize,
     /// Error-free pieces only (C12).
     pub judge_errors: bool,
+    /// C03: only the robustness oracles (no panic, call counts, well-formed output); the run
+    /// continues after ParseError, StreamReadError and ConnectionClosed.
+    pub robust_only: bool,
 }
 
 impl Cfg {
@@ -107,6 +110,7 @@ impl Cfg {
             max_pending_fds: 4,
             offer_when_queued_le: 2,
             judge_errors: true,
+            robust_only: false,
         }
     }
     pub fn to_json(&self) -> Value {
@@ -118,7 +122,7 @@ impl Cfg {
             "empty_reads": self.empty_reads, "eof": self.eof,
             "continue_after_error": self.continue_after_error,
             "max_fds_per_read": self.max_fds_per_read, "max_pending_fds": self.max_pending_fds,
-            "offer_when_queued_le": self.offer_when_queued_le, "judge_errors": self.judge_errors,
+            "offer_when_queued_le": self.offer_when_queued_le, "judge_errors": self.judge_errors, "robust_only": self.robust_only,
         })
     }
     pub fn from_json(v: &Value) -> Cfg {
@@ -151,6 +155,7 @@ impl Cfg {
             max_pending_fds: v["max_pending_fds"].as_u64().unwrap() as usize,
             offer_when_queued_le: v["offer_when_queued_le"].as_u64().unwrap() as usize,
             judge_errors: v["judge_errors"].as_bool().unwrap(),
+            robust_only: v["robust_only"].as_bool().unwrap_or(false),
         }
     }
 }
@@ -571,6 +576,16 @@ impl<'a> Exec<'a> {
         if self.tracing {
             self.steps.push(json!({"action": format!("Empty({})", if e == 0 {"EAGAIN"} else {"EINTR"}), "try_read": rs, "delivered": o.delivered.len()}));
         }
+        if let Err(p) = &o.result {
+            return self.fail("panic", format!("try_read panicked: {}", p));
+        }
+        if self.cfg.robust_only {
+            if o.recv_calls > 1 || o.other_stream_calls != 0 {
+                return self.fail("stream-call-count", format!("try_read made {} receive calls and {} other stream calls", o.recv_calls, o.other_stream_calls));
+            }
+            self.obs_log.extend_from_slice(rs.as_bytes());
+            return;
+        }
         match &o.result {
             Ok(Err(ConnectionError::StreamReadError(x))) if x.errno() == errno => {}
             _ => {
@@ -607,6 +622,16 @@ impl<'a> Exec<'a> {
             self.steps.push(json!({"action": format!("Eof(fds={})", f), "try_read": rs, "delivered": o.delivered.len()}));
         }
         self.obs_log.extend_from_slice(b"eof;");
+        if let Err(p) = &o.result {
+            return self.fail("panic", format!("try_read panicked: {}", p));
+        }
+        if self.cfg.robust_only {
+            if o.recv_calls > 1 || o.other_stream_calls != 0 {
+                return self.fail("stream-call-count", format!("try_read made {} receive calls and {} other stream calls", o.recv_calls, o.other_stream_calls));
+            }
+            self.keep(o);
+            return;
+        }
         self.terminal = true;
         match &o.result {
             Ok(Err(ConnectionError::ConnectionClosed)) => {}
@@ -693,7 +718,7 @@ impl<'a> Exec<'a> {
         if let Some(p) = &o.pop_panic {
             return self.fail("panic", format!("pop_parsed_request: {}", p));
         }
-        if o.recv_calls != 1 || o.other_stream_calls != 0 {
+        if o.recv_calls > 1 || (o.recv_calls != 1 && !self.cfg.robust_only) || o.other_stream_calls != 0 {
             return self.fail("stream-call-count", format!("try_read made {} receive calls and {} other stream calls (exactly one receive expected)", o.recv_calls, o.other_stream_calls));
         }
         if o.write_calls_per_try_write_max > 1 {
@@ -714,6 +739,19 @@ impl<'a> Exec<'a> {
             }
         }
 
+        if self.cfg.robust_only {
+            if taken == 0 && k > 0 && matches!(&o.result, Ok(Ok(()))) {
+                return self.fail("no-progress", "try_read returned Ok but consumed nothing although bytes had arrived".into());
+            }
+            self.obs_log.extend_from_slice(rs.as_bytes());
+            self.obs_log.push(b';');
+            if !matches!(&o.result, Ok(Ok(()))) {
+                self.errored = true;
+                self.facts |= 1 << 15;
+            }
+            self.keep(o);
+            return;
+        }
         // descriptors (reference: pending list, handed in arrival order to the first request
         // completed by this or a later read)
         self.pending_fds.extend_from_slice(&fds);
@@ -893,7 +931,13 @@ impl<'a> Exec<'a> {
                 look.feed(*b, &mut sink);
             }
             for (i, p) in self.cfg.pieces.iter().enumerate() {
-                let ok = if !self.cfg.judge_errors {
+                let ok = if self.cfg.robust_only {
+                    match self.c.conn.verif_cursor().0 {
+                        2 => matches!(p.class, Class::Body | Class::Blank),
+                        1 => matches!(p.class, Class::Header | Class::Blank | Class::Stray) || (p.class == Class::ReqLine && i == 0),
+                        _ => matches!(p.class, Class::ReqLine | Class::Blank | Class::Stray) || (p.class == Class::Header && i % 3 == 0),
+                    }
+                } else if !self.cfg.judge_errors {
                     // error-free streams only (C12): request lines at a request boundary,
                     // header lines and the blank line inside a header block, bodies in bodies
                     if look.in_body() {
